@@ -234,6 +234,10 @@ fn identify_reports() -> SimResult {
         mark_nontrivial();
     }
     note_val("msgs", crafted.len() as u64);
+    note_val("shape", honest_reported.min(15) as u64 + 16 * rejected_kinds.min(15) as u64 + 256 * reported.len().min(31) as u64 + 8192 * crafted.iter().filter(|c| c.push).count().min(15) as u64);
+    for c in crafted.iter().take(6) {
+        note_val("kind", c.key_kind as u64 + 4 * c.record_kind as u64 + 32 * c.push as u64);
+    }
     for c in &clients {
         let _ = (&c.shared, c.node.take_events());
     }
